@@ -46,9 +46,11 @@ def gen_config(rng, seg_p=0.5):
         if rng.random() < 0.3 and ndim == 3:
             extra.append("ellipse_axis_radii")
         iso = cfg["scale"] is None or len(set(cfg["scale"][1:])) == 1
-        if rng.random() < 0.25 and (ndim == 4 or iso):
+        # numeric-kernel domain limits (DESIGN.md): skimage refuses 2D perimeter with anisotropic
+        # spacing, and marching_cubes raises for a 3D mask that fills its whole frame
+        if rng.random() < 0.25 and ndim == 3 and iso:
             extra.append("perimeter")
-        if rng.random() < 0.2 and (ndim == 4 or iso):
+        if rng.random() < 0.2 and ndim == 3 and iso:
             extra.append("circularity")
         cfg["enable"] = extra
         cfg["per_axis"] = False
@@ -319,10 +321,8 @@ def gen_op(rng, t, cfg, ids_seen):
             else:
                 attrs["pos"] = [float(nid)] + [0.0] * (cfg["ndim"] - 2)
                 toks.append("1=t%d" % nid)
-        if rng.random() < 0.15:
-            lin = rng.choice([1, 2, 70])
-            attrs["lineage_id"] = lin
-            toks.append("3=z%d" % lin)
+        # a caller-supplied lineage id is outside the documented domain of UserAddNode (it is
+        # taken at face value); the generator never passes one - see DESIGN.md, domain limits
         pixels = None if px is None else to_pixels(cfg, px)
         ids_seen.add(nid)
         return ("AN %d %d %s %s" % (nid, f, px_txt(px), " ".join(toks))).rstrip(), (lambda: UserAddNode(t, nid, attrs, pixels=pixels, force=f)), "add_node"
@@ -438,6 +438,8 @@ def run_scenario(seed, idx, nsteps=None, seg_p=0.5, on_step=None):
         cnt[1] = "n" if (not a or a[0] is None) else str(int(a[0]))
 
     t.refresh.connect(on_refresh)
+    if on_step is not None:
+        on_step.start(t, cfg)
     lines = init_lines(t, cfg)
     obs = [dict(observe(t, cfg, cnt[0], cnt[1]), ret=0, aux=[])]
     kinds = ["init"]
